@@ -23,11 +23,13 @@ type absMut struct {
 }
 
 type opLine struct {
-	Op  string          `json:"op"`
-	T   json.RawMessage `json:"t"`
-	M   json.RawMessage `json:"m"`
-	R   string // rider of a "cb" op
-	Hon bool
+	Op   string          `json:"op"`
+	T    json.RawMessage `json:"t"`
+	M    json.RawMessage `json:"m"`
+	R    string // rider of a "cb" op
+	Hon  bool
+	Pool string // plan of a "blk" op
+	Via  string
 }
 
 type caseOut struct {
@@ -36,6 +38,31 @@ type caseOut struct {
 	Op  string          `json:"op"`
 	T   json.RawMessage `json:"t"`
 	Res string          `json:"res"`
+	Sub string          `json:"sub"` // Chain.SubmitTx: ok | rej | "-" (not asked)
+}
+
+type blkOut struct {
+	Tr      int             `json:"tr"`
+	I       int             `json:"i"`
+	Op      string          `json:"op"`
+	T       json.RawMessage `json:"t"`
+	M       json.RawMessage `json:"m"`
+	Pool    string          `json:"pool"`
+	Via     string          `json:"via"`
+	Applied bool            `json:"applied"` // the mutation changed the protobuf (true without mutation)
+	Same    bool            `json:"same"`
+	SameC   bool            `json:"samec"` // the entry is the pooled transaction (equal up to block id and reception time)
+	Pooled  string          `json:"pooled"`
+	Res     string          `json:"res"`
+	Fl      []string        `json:"fl"`
+}
+
+type fixtureOut struct {
+	Tr     int        `json:"tr"`
+	I      int        `json:"i"`
+	Op     string     `json:"op"`
+	Rules  []ruleLine `json:"rules"`
+	NoRule []string   `json:"norule"`
 }
 
 type mutOut struct {
@@ -45,6 +72,7 @@ type mutOut struct {
 	T       json.RawMessage `json:"t"`
 	M       json.RawMessage `json:"m"`
 	Res     string          `json:"res"`
+	Sub     string          `json:"sub"`
 	Applied bool            `json:"applied"`
 }
 
@@ -128,6 +156,102 @@ func formOf(t *aTx) string {
 	return "multi-address"
 }
 
+// families names the case families of the signer-list / account dimensions an abstract transaction belongs to.
+func families(t *aTx) []string {
+	out := []string{}
+	seenURI, seenKey := map[string]bool{}, map[string]string{}
+	dupURI, alias := false, false
+	for _, u := range t.Auth {
+		s := fmt.Sprint(u)
+		if seenURI[s] {
+			dupURI = true
+		}
+		seenURI[s] = true
+		last := u[len(u)-1]
+		if prev, ok := seenKey[last]; ok && prev != s {
+			alias = true
+		}
+		seenKey[last] = s
+	}
+	if dupURI {
+		out = append(out, "signer_uri_listed_twice")
+	}
+	if alias {
+		out = append(out, "key_through_two_uris")
+	}
+	acctInit := len(t.Init) == 1
+	if acctInit && !t.Xs.On {
+		pk := map[string]bool{}
+		for _, sg := range t.Isigs {
+			if pk[sg.Pk] {
+				out = append(out, "account_initiator_signed_twice_by_one_key")
+				break
+			}
+			pk[sg.Pk] = true
+		}
+	}
+	acctIn := false
+	for _, in := range t.Ins {
+		if len(in.Own) == 1 && in.Own != "C" && !in.Cj {
+			acctIn = true
+			if in.Own != "A" && in.Own != "B" && in.Own != "G" {
+				out = append(out, "input_of_account_"+in.Own)
+			}
+		}
+	}
+	if t.Xs.On && acctInit {
+		out = append(out, "xsign_account_initiator")
+		if len(t.Auth) > 0 && len(t.Auth[0]) == 2 {
+			out = append(out, "xsign_account_initiator_named_in_signers")
+		} else {
+			out = append(out, "xsign_account_initiator_not_named")
+		}
+	}
+	if t.Xs.On && acctIn {
+		out = append(out, "xsign_account_owned_input")
+	}
+	if (dupURI || alias) && acctIn {
+		out = append(out, "repeated_signer_and_account_owned_input")
+	}
+	return out
+}
+
+// mutate applies the field mutation m to a copy of base; applied: the wire form differs from the base's.
+func mutate(base *pb.Transaction, m *absMut) (mtx *pb.Transaction, applied bool, err error) {
+	mtx = proto.Clone(base).(*pb.Transaction)
+	msg, found, err := resolve(mtx, m.Loc, m.I)
+	if err != nil {
+		return nil, false, err
+	}
+	if found {
+		if applied, err = applyVar(msg, m.F[len(msg.Type().Name())+1:], m.Var); err != nil {
+			return nil, false, fmt.Errorf("mutation %+v: %v", m, err)
+		}
+	}
+	if applied && m.St == "fixid" {
+		if mtx.Txid, err = txhash.MakeTransactionID(mtx); err != nil {
+			return nil, false, err
+		}
+	}
+	if applied {
+		// what arrives at a node went through the wire: compare after normalisation
+		wm, err := wire(mtx)
+		if err != nil {
+			return nil, false, err
+		}
+		applied = !proto.Equal(wm, base)
+	}
+	return mtx, applied, nil
+}
+
+// submitRejected asks the engine entry Chain.SubmitTx about a transaction State.VerifyTx did not accept, on the
+// fixture node itself: a refusal leaves the node as it was. If the engine admits it the node is no longer the
+// fixture: the world is built anew (dirty).
+func (w *world) submitRejected(tx *pb.Transaction, st *stats) (res string, dirty bool) {
+	res, _ = submitClass(w.node, tx, st)
+	return res, res == "ok"
+}
+
 // casesCmd: every op of every behaviour file of -in on the real code.
 //
 //	case: concretise the abstract transaction, State.VerifyTx
@@ -137,13 +261,25 @@ func casesCmd(args []string) error {
 	fs := flag.NewFlagSet("cases", flag.ExitOnError)
 	in := fs.String("in", "", "directory with behaviour files (lists of case / mut ops)")
 	out := fs.String("out", "", "ndjson trace to write")
+	tag := fs.String("tag", "", "distinguishes the node names of driver processes that run side by side")
 	fs.Parse(args)
 	behs, err := loadOps(*in)
 	if err != nil {
 		return err
 	}
-	w, err := newWorld(fmt.Sprintf("c07cases%d", seed()))
-	if err != nil {
+	worlds := 0
+	var w *world
+	bases := map[string]*pb.Transaction{}
+	renew := func() error {
+		if w != nil {
+			w.node.Drop()
+		}
+		worlds++
+		bases = map[string]*pb.Transaction{}
+		w, err = newWorld(fmt.Sprintf("c07cases%d%s-%d", seed(), *tag, worlds))
+		return err
+	}
+	if err := renew(); err != nil {
 		return err
 	}
 	tw, err := fx.NewTraceWriter(*out)
@@ -152,13 +288,17 @@ func casesCmd(args []string) error {
 	}
 	defer tw.Close()
 	st := newStats()
-	bases := map[string]*pb.Transaction{}
+	rules, err := w.fixtureRules()
+	if err != nil {
+		return err
+	}
+	tw.Emit(fixtureOut{0, 0, "fixture", rules, []string{"G"}})
 	n := 0
 	for tr, beh := range behs {
 		for i, op := range beh {
 			n++
 			if op.Op == "cb" {
-				res, err := coinbaseRider(fmt.Sprintf("c07cb%d-%d", seed(), n), op.R)
+				res, err := coinbaseRider(fmt.Sprintf("c07cb%d%s-%d", seed(), *tag, n), op.R)
 				if err != nil {
 					return err
 				}
@@ -180,13 +320,82 @@ func casesCmd(args []string) error {
 				st.Cases++
 				st.ByForm[formOf(&t)]++
 				st.ByRes[res]++
+				for _, f := range families(&t) {
+					st.Fam[f]++
+					st.Fam[f+":"+res]++
+				}
 				if op.Hon && res == "ok" {
 					st.HonestOK++
 				}
+				sub := "-"
 				if res != "ok" {
 					st.Why[whyClass(why)]++
+					var dirty bool
+					sub, dirty = w.submitRejected(tx, st)
+					st.Sub[res+"->"+sub]++
+					if dirty {
+						if err := renew(); err != nil {
+							return err
+						}
+					}
 				}
-				tw.Emit(caseOut{tr, i, "case", op.T, res})
+				tw.Emit(caseOut{tr, i, "case", op.T, res, sub})
+			case "blk":
+				var m absMut
+				if err := json.Unmarshal(op.M, &m); err != nil {
+					return err
+				}
+				base, err := w.concretise(&t, fmt.Sprintf("%d-blk-%d-%d", w.sd, tr, i))
+				if err != nil {
+					return fmt.Errorf("behaviour %d op %d: concretise: %v", tr, i, err)
+				}
+				if base, err = wire(base); err != nil {
+					return err
+				}
+				entry, applied := base, true
+				if m.Var != "none" {
+					if entry, applied, err = mutate(base, &m); err != nil {
+						return err
+					}
+				}
+				o := blkOut{Tr: tr, I: i, Op: "blk", T: op.T, M: op.M, Pool: op.Pool, Via: op.Via, Applied: applied, Pooled: "-", Res: "-", Fl: []string{}}
+				if applied {
+					var pooled *pb.Transaction
+					if op.Pool == "base" {
+						pooled = base
+					}
+					f, err := w.blockOp(entry, pooled, op.Via, st)
+					if err != nil {
+						return fmt.Errorf("behaviour %d op %d: block: %v", tr, i, err)
+					}
+					o.Same, o.SameC, o.Pooled, o.Res = f.Same, f.SameC, f.Pooled, f.Res
+					for _, c := range f.Flags {
+						o.Fl = append(o.Fl, string(c))
+					}
+					kind := "case"
+					if m.Var != "none" {
+						kind = "mut"
+					}
+					st.Blk++
+					key := fmt.Sprintf("%s/%s/%s", kind, op.Pool, op.Via)
+					st.BlkBy[key]++
+					st.BlkBy[key+":"+f.Res+":"+f.Flags]++
+					if f.Pooled == "in" {
+						st.BlkBy["pooled_in"]++
+						if f.Same && m.Var != "none" {
+							st.BlkBy["changed_entry_under_pooled_id/"+op.Via]++
+							st.BlkBy["changed_entry_under_pooled_id/"+op.Via+":"+f.Res]++
+						}
+					} else if f.Pooled == "refused" {
+						st.BlkBy["pooled_refused"]++
+					}
+					if f.Res == "rej" {
+						st.Why["blk: "+f.Stage+": "+whyClass(f.Why)]++
+					}
+				} else {
+					st.MutsNA++
+				}
+				tw.Emit(o)
 			case "mut":
 				var m absMut
 				if err := json.Unmarshal(op.M, &m); err != nil {
@@ -208,33 +417,13 @@ func casesCmd(args []string) error {
 					} else {
 						st.Why["base: "+whyClass(why)]++
 					}
-					tw.Emit(caseOut{tr, i, "case", op.T, res})
+					tw.Emit(caseOut{tr, i, "case", op.T, res, "-"})
 				}
-				mtx := proto.Clone(base).(*pb.Transaction)
-				applied := false
-				msg, found, err := resolve(mtx, m.Loc, m.I)
+				mtx, applied, err := mutate(base, &m)
 				if err != nil {
 					return err
 				}
-				if found {
-					if applied, err = applyVar(msg, m.F[len(msg.Type().Name())+1:], m.Var); err != nil {
-						return fmt.Errorf("mutation %+v: %v", m, err)
-					}
-				}
-				if applied && m.St == "fixid" {
-					if mtx.Txid, err = txhash.MakeTransactionID(mtx); err != nil {
-						return err
-					}
-				}
-				if applied {
-					// what arrives at a node went through the wire: compare after normalisation
-					wm, err := wire(mtx)
-					if err != nil {
-						return err
-					}
-					applied = !proto.Equal(wm, base)
-				}
-				res := "-"
+				res, sub := "-", "-"
 				if applied {
 					var why string
 					res, why = w.verdict(mtx, st)
@@ -244,11 +433,21 @@ func casesCmd(args []string) error {
 					st.Touched[m.F]++
 					if res != "ok" {
 						st.Why["mut: "+whyClass(why)]++
+						var dirty bool
+						sub, dirty = w.submitRejected(mtx, st)
+						st.Sub["mut:"+res+"->"+sub]++
+						if dirty {
+							tw.Emit(mutOut{tr, i, "mut", op.T, op.M, res, sub, applied})
+							if err := renew(); err != nil {
+								return err
+							}
+							continue
+						}
 					}
 				} else {
 					st.MutsNA++
 				}
-				tw.Emit(mutOut{tr, i, "mut", op.T, op.M, res, applied})
+				tw.Emit(mutOut{tr, i, "mut", op.T, op.M, res, sub, applied})
 			default:
 				return fmt.Errorf("unknown op %q", op.Op)
 			}
@@ -275,9 +474,10 @@ func loadOps(dir string) ([][]opLine, error) {
 				ops = append(ops, o)
 				continue
 			}
-			if o.Op != "case" && o.Op != "mut" {
+			if o.Op != "case" && o.Op != "mut" && o.Op != "blk" {
 				continue
 			}
+			o.Pool, o.Via = e.Str("pool"), e.Str("via")
 			o.T, _ = json.Marshal(e["t"])
 			if m, ok := e["m"]; ok {
 				o.M, _ = json.Marshal(m)
